@@ -121,6 +121,7 @@ func init() {
 			ruleStorageArms(r)
 			ruleUnits(r, "C01.units", "every use of a row position has the unit its sink needs: indexes into per-block value arrays and per-block bitmaps are block-relative; offsets written to buffers, whole-collection bitmaps, lookup tables, the cursor, and passed to the offset-taking API are absolute (a mismatch is wrong for every block but the first)", 60, nil)
 			ruleUnitDefs(r)
+			ruleChunkAlloc(r)
 			ruleWidths(r)
 			ruleGuardedReads(r)
 			ruleGrow(r)
@@ -171,6 +172,7 @@ func init() {
 			ruleCursor(r)
 			ruleBlockLoops(r)
 			rulePool(r)
+			ruleCountAndCache(r)
 			ruleUnits(r, "C04.units", "filters, iteration and aggregates index per-block storage with block-relative offsets and hand absolute offsets to callbacks and the cursor", 12, filterFns)
 			ruleUnitDefs(r)
 			ruleL3f(r, only("(*column.Txn).With", "(*column.Txn).Union", "(*column.Txn).Range", "(column.rdNumber[T])."), 10)
@@ -186,6 +188,7 @@ func init() {
 			ruleCopies(r)
 			ruleWidths(r)
 			ruleReplayOrder(r)
+			ruleReaderState(r)
 			ruleUnits(r, "C05.units", unitsText, 3, fnsel("(*commit.", "(commit.", "commit."))
 		}})
 	register(&PropSpec{ID: "C06",
@@ -201,6 +204,7 @@ func init() {
 			ruleReplay(r)
 			ruleReplayOrder(r)
 			ruleStorageArms(r)
+			ruleCommitUpdates(r) // primary and replica maintain computed columns the same way
 			ruleUnits(r, "C06.units", unitsText, 2, fnsel("(*column.Collection).Replay", "(*column.Txn).commit", "(*column.Txn).rangeWrite"))
 		}})
 	register(&PropSpec{ID: "C07",
@@ -213,6 +217,7 @@ func init() {
 			ruleWholeCommits(r)
 			ruleMarkerArms(r)
 			ruleUnitDefs(r)
+			ruleStateVersion(r)
 		}})
 	register(&PropSpec{ID: "C08",
 		Explanation: "Snapshot under concurrent commits is a consistent cut — structural part. (L5.id) the commit id is drawn, stored and handed on while the block's exclusive latch is held (so per block id order = apply order for all schedules); (L5.emit) the recorder append and the recording test happen under that latch; (C08.read) the snapshot reads id, fill slice and columns of a block under the block latch and the collection mutex; (C08.order) recorder opened before the state is written, log copied after; (C08.replay) restore replays exactly the commits whose id is not below the block's stored id; (C02.isolation) the fill slice read contains only committed rows; (L4) commit-id table discipline." + staticNote,
@@ -273,6 +278,7 @@ func init() {
 		Run: func(r *Report) {
 			ruleKeyArms(r)
 			ruleKeyPaths(r)
+			ruleKeyWiring(r)
 			ruleL6(r)
 			ruleKeyAtomic(r)
 			ruleCommitOrder(r, true, false)
@@ -331,6 +337,7 @@ func init() {
 		Assumptions: []string{assumeA1},
 		Run: func(r *Report) {
 			ruleExpire(r)
+			ruleTTLNames(r)
 			ruleMergeQueued(r)
 			ruleUnits(r, "C17.units", unitsText, 1, fnsel("(*column.Collection).vacuum", "(*column.Txn).DeleteAt", "(column.rwTTL).", "(column.Row).SetTTL", "(column.Row).TTL"))
 		}})
